@@ -623,6 +623,17 @@ class Compiler:
                     idx = self._add_name(name)
                     self._emit(OpCode.STORE_NAME, idx)
                 self._emit(OpCode.POP)
+            elif isinstance(node.left, MemberExpression):
+                # for (obj.prop of ...) or for (obj[key] of ...), as in for-in
+                self._compile_expression(node.left.object)
+                if node.left.computed:
+                    self._compile_expression(node.left.property)
+                else:
+                    idx = self._add_constant(node.left.property.name)
+                    self._emit(OpCode.LOAD_CONST, idx)
+                self._emit(OpCode.ROT3)
+                self._emit(OpCode.SET_PROP)
+                self._emit(OpCode.POP)  # Pop the result of SET_PROP
             else:
                 raise NotImplementedError(
                     f"Unsupported for-of left: {type(node.left).__name__}"
